@@ -98,6 +98,23 @@ class VariableCacheProvider:
         """The number of variables we have cached."""
         return self.__used + len(self.__cache)
 
+    def next_var_id(self) -> str:
+        """
+        Get the id the next call of new_var_id will hand out.
+
+        :return: the id
+        """
+        return str(self.size + 1)
+
+    def forget(self, identity_hash_id):
+        """
+        Forget a value, its id stays taken.
+
+        :param identity_hash_id: the identity of the value whose entry has been removed from the lookup
+        """
+        if self.__cache.pop(identity_hash_id, None) is not None:
+            self.__used += 1
+
     def new_var_id(self, identity_hash_id):
         """
         Create a new variable id from the hash id.
@@ -262,16 +279,21 @@ class VariableSetProcessor(Collector):
 
     def __text_of(self, value) -> str:
         # the text that stands for the value in a log message: data of the program, held to the string limit too
-        return truncate_string(safe_str(value), max(self.max_string_length, 0))[0]
+        try:
+            return truncate_string(safe_str(value), max(self.max_string_length, 0))[0]
+        except BaseException:
+            # (the value is recorded by now: whatever its text does, the record stays)
+            return ''
 
     def __placeholder(self, node_value: NodeValue) -> VariableResponse:
         identity_hash_id = str(id(node_value.value))
         var_id = self.check_id(identity_hash_id)
         if var_id is None:
             name = type_name(type(node_value.value))
-            var_id = self.new_var_id(identity_hash_id)
             variable = Variable(name, '%s@%s' % (name, identity_hash_id), identity_hash_id, [], False)
-            self.append_variable(var_id, variable)
+            # (the entry first, see process_variable)
+            self.append_variable(self.next_var_id(), variable)
+            var_id = self.new_var_id(identity_hash_id)
         variable_id = VariableId(var_id, node_value.name, [], node_value.original_name)
         return VariableResponse(variable_id, process_children=False)
 
@@ -342,6 +364,14 @@ class VariableSetProcessor(Collector):
         :return: the new lookup id
         """
         return self.__var_cache.new_var_id(identity_hash_id)
+
+    def next_var_id(self) -> str:
+        """
+        Get the id the next call of new_var_id will hand out, without handing it out.
+
+        :return: the id
+        """
+        return self.__var_cache.next_var_id()
 
     def append_variable(self, var_id, variable):
         """
